@@ -96,6 +96,15 @@ pub open spec fn sum_lens(s: Seq<usize>, n: int) -> int decreases n { if n <= 0 
             r is Err ==> final(self).mappings@ == old(self).mappings@, // [C13]
             r is Err ==> final(self).atomic_mem.view@ == old(self).atomic_mem.view@, // [C13:mem-intact]""")
     u.raw("}")
+    u.raw("impl ReqFdHandler {")
+    u.extracted_fn(hnd, "set_backend_req_fd", within=span2, sig_rw=[("R8", r'backend:\s*Backend', 'mut backend: BackendProxyStub')], contract="""
+        requires !backend.reply_ack && !backend.shared_object && !backend.shmem    // a freshly created proxy (Backend::new: all flags false)
+        ensures final(self).backend.got@.len() == old(self).backend.got@.len() + 1,
+            // [C14] the channel handed to the backend carries exactly the negotiated reply-ack / shared-object / shared-memory settings
+            final(self).backend.got@.last().reply_ack == (old(self).acked_protocol_features & 0x8 != 0),
+            final(self).backend.got@.last().shared_object == (old(self).acked_protocol_features & 0x4_0000 != 0),
+            final(self).backend.got@.last().shmem == (old(self).acked_protocol_features & 0x20_0000 != 0),""")
+    u.raw("}")
     # ---- C15: page arithmetic, new, mark_dirty
     u.extracted_fn(bmp, "page_number", contract="        ensures r == addr / 4096 // [C15]")
     u.extracted_fn(bmp, "page_word", contract="        ensures r == page / 8 // [C15] bit number gpa/4096, eight pages per log byte")
